@@ -11,7 +11,13 @@ Pinned definitions).  The subset is deliberately small; anything outside it is r
                str methods startswith endswith strip lstrip rstrip lower upper capitalize replace split join expandtabs,
                re.sub re.match re.search re.fullmatch (pattern / replacement literal or module constant; CPython's parser
                gives the AST), generator/list comprehensions with one `for` (inside join/tuple/list), calls of other
-               translated functions, membership in a pinned table.
+               translated functions, membership in a pinned table; tuple/list displays of str and `+` on them, comprehensions with
+               several `for`s (flatMap), `tuple(<list>)`; index expressions `s[k]` / `xs[k]` with a constant k: the function then
+               gets a companion `<key>_ok : … → Bool` that is true exactly when every index expression evaluated on the path taken
+               is in range (Python raises IndexError otherwise; short-circuit `and`/`or`/conditional expressions and `if` guard
+               their operands), the driver answers `{"raised": "IndexError"}` when it is false, and theorems about the function
+               carry `_ok` as an explicit hypothesis; `m = re.match(p, s)` bound to a local (pattern may be a local string
+               constant) with `m[0]` allowed only under `if m …:`; `imp.Import(package=, module=, alias=)` as a structure.
 """
 from __future__ import annotations
 import ast, os
@@ -54,12 +60,38 @@ FUNCS = [
     ("metadata_doc", "gapic/schema/metadata.py", "Metadata.doc", [],
      {"subst": {"self.documentation.leading_comments": ("leading", "Str"), "self.documentation.trailing_comments": ("trailing", "Str"),
                 "self.documentation.leading_detached_comments": ("detached", "ListStr")}, "ret": "Str"}),
+    # gapic/schema/metadata.py: Address — the naming of every type reference and import (C01, C02, C12).  Properties of `self` that
+    # a function reads become parameters (`subst`); Model/AddressT.lean composes the pieces the way the properties call each other.
+    ("address_str", "gapic/schema/metadata.py", "Address.__str__", [("module", "Str"), ("parent", "ListStr"), ("name", "Str")],
+     {"subst": {"self.module_alias": ("module_alias", "Str"), "self.is_proto_plus_type": ("is_proto_plus_type", "Bool")}}),
+    ("address_module_alias", "gapic/schema/metadata.py", "Address.module_alias", [("module", "Str"), ("collisions", "ListStr"), ("package", "ListStr")],
+     {"subst": {"self.api_naming.version": ("api_version", "Str")}}),
+    ("address_proto", "gapic/schema/metadata.py", "Address.proto", [("package", "ListStr"), ("parent", "ListStr"), ("name", "Str")]),
+    ("address_proto_package", "gapic/schema/metadata.py", "Address.proto_package", [("package", "ListStr")]),
+    ("address_versioned_package", "gapic/schema/metadata.py", "Address.convert_to_versioned_package", [("package", "ListStr")]),
+    ("address_subpackage", "gapic/schema/metadata.py", "Address.subpackage", [("package", "ListStr")],
+     {"subst": {"self.api_naming.proto_package": ("api_proto_package", "Str")}}),
+    ("address_python_import", "gapic/schema/metadata.py", "Address.python_import", [("package", "ListStr"), ("module", "Str")],
+     {"subst": {"self.api_naming.module_namespace": ("api_module_namespace", "ListStr"), "self.api_naming.versioned_module_name": ("api_versioned_module_name", "Str"),
+                "self.api_naming.proto_package": ("api_proto_package", "Str"), "self.api_naming": ("api_naming_truthy", "Bool"),
+                "self.proto_package": ("proto_package", "Str"), "self.subpackage": ("subpackage", "ListStr"),
+                "self.is_proto_plus_type": ("is_proto_plus_type", "Bool"), "self.convert_to_versioned_package()": ("versioned_package", "ListStr"),
+                "self.module_alias": ("module_alias", "Str")}, "ret": "Import"}),
+    ("address_rel", "gapic/schema/metadata.py", "Address.rel", [("package", "ListStr"), ("module", "Str"), ("parent", "ListStr"), ("name", "Str")],
+     {"subst": {"address.package": ("other_package", "ListStr"), "address.module": ("other_module", "Str"), "address.parent": ("other_parent", "ListStr"),
+                "address.name": ("other_name", "Str"), "str(self)": ("self_str", "Str")}, "skip_params": ["address"]}),
+    ("address_sphinx", "gapic/schema/metadata.py", "Address.sphinx", [("package", "ListStr"), ("module", "Str"), ("parent", "ListStr"), ("name", "Str")],
+     {"subst": {"self.api_naming.module_namespace": ("api_module_namespace", "ListStr"), "self.api_naming.versioned_module_name": ("api_versioned_module_name", "Str"),
+                "self.api_naming.proto_package": ("api_proto_package", "Str"), "self.api_naming": ("api_naming_truthy", "Bool"),
+                "self.proto_package": ("proto_package", "Str"), "self.subpackage": ("subpackage", "ListStr"),
+                "self.is_proto_plus_type": ("is_proto_plus_type", "Bool"), "self.convert_to_versioned_package()": ("versioned_package", "ListStr"),
+                "str(self)": ("self_str", "Str")}}),
 ]
 
 TABLES = {"RESERVED_NAMES": "reservedNames", "kwlist": "pyKeywords"}       # module-level tables available as Pinned.<name> : List String
 
 TY = {"str": "Str", "int": "Int", "bool": "Bool"}
-LEAN_TY = {"Str": "Str", "Int": "Int", "Bool": "Bool", "ListStr": "List Str", "SetStr": "List Str"}
+LEAN_TY = {"Str": "Str", "Int": "Int", "Bool": "Bool", "ListStr": "List Str", "SetStr": "List Str", "Match": "Option Str", "Import": "PyImport"}
 # "SetStr": a Python set of str, represented by a duplicate-free list; the only thing a translated function may do with it is
 # `sorted(...)` (its iteration order is unspecified) or a truth test
 
@@ -104,6 +136,8 @@ class Tr:
         self.self_attrs = dict(self_attrs)
         self.env = {}
         self.nonempty = set()          # locals bound (once) to the result of str.split / re.split
+        self.local_consts = {}         # locals bound to a string constant (usable as a regex pattern)
+        self.guarded = set()           # Match-typed locals known to be truthy in the branch being translated
 
     # ---- types
     def ann(self, a):
@@ -124,11 +158,15 @@ class Tr:
             return f"(truthy {t})"
         if ty == "Int":
             return f"({t} != 0)"
+        if ty == "Match":
+            return f"({t}).isSome"
         raise Refused(f"truthiness of {ty}")
 
     def pattern(self, e):
         if isinstance(e, ast.Constant) and isinstance(e.value, str):
             p = e.value
+        elif isinstance(e, ast.Name) and e.id in self.local_consts:
+            p = self.local_consts[e.id]
         elif isinstance(e, ast.Name) and e.id in self.consts:
             p = self.consts[e.id]
         else:
@@ -181,6 +219,7 @@ class Tr:
         if isinstance(e, ast.BinOp):
             a, ta = self.expr(e.left); b, tb = self.expr(e.right)
             if isinstance(e.op, ast.Add) and ta == tb == "Str": return f"({a} ++ {b})", "Str"
+            if isinstance(e.op, ast.Add) and ta == tb == "ListStr": return f"({a} ++ {b})", "ListStr"
             if isinstance(e.op, ast.Add) and ta == tb == "Int": return f"({a} + {b})", "Int"
             if isinstance(e.op, ast.Sub) and ta == tb == "Int": return f"({a} - {b})", "Int"
             raise Refused(f"operator {type(e.op).__name__} on {ta}, {tb}")
@@ -196,6 +235,10 @@ class Tr:
                 else:
                     raise Refused("f-string conversion / format spec")
             return "(" + " ++ ".join(parts or ["([] : Str)"]) + ")", "Str"
+        if isinstance(e, (ast.Tuple, ast.List)):
+            items = [self.expr(x) for x in e.elts]
+            if any(t != "Str" for _, t in items): raise Refused("tuple/list display of non-str")
+            return "([" + ", ".join(t for t, _ in items) + "] : List Str)", "ListStr"
         if isinstance(e, (ast.GeneratorExp, ast.ListComp)):
             return self.comp(e)
         if isinstance(e, ast.Subscript):
@@ -248,29 +291,54 @@ class Tr:
         if isinstance(e.slice, ast.Constant) and e.slice.value == 0 and isinstance(e.value, ast.Name) and e.value.id in self.nonempty:
             v, tv = self.expr(e.value)          # a local bound to a `split` result: never empty
             return f"(head0 {v})", "Str"
-        raise Refused("index expression (only `.split(sep)[0]` cannot raise)")
+        if isinstance(e.slice, ast.Constant) and isinstance(e.slice.value, int) and not isinstance(e.slice.value, bool) or \
+                (isinstance(e.slice, ast.UnaryOp) and isinstance(e.slice.op, ast.USub) and isinstance(e.slice.operand, ast.Constant)
+                 and isinstance(e.slice.operand.value, int)):
+            k = e.slice.value if isinstance(e.slice, ast.Constant) else -e.slice.operand.value
+            v, tv = self.expr(e.value)
+            if tv == "Match":
+                if k != 0 or not (isinstance(e.value, ast.Name) and e.value.id in self.guarded):
+                    raise Refused("m[k] of a match object outside `if m …:` or with k != 0")
+                return f"(matchText {v})", "Str"
+            if tv == "Str": return f"(idxStr {v} ({k} : Int))", "Str"          # in range: see ok_expr
+            if tv == "ListStr": return f"(idxList {v} ({k} : Int))", "Str"
+            raise Refused("index of " + tv)
+        raise Refused("index expression with a non-constant index")
 
     def comp(self, g):
-        """generator / list comprehension with one `for x in <ListStr>` -> List Str"""
-        if len(g.generators) != 1: raise Refused("nested comprehension")
-        gen = g.generators[0]
-        if not isinstance(gen.target, ast.Name) or gen.is_async: raise Refused("comprehension target")
-        src, ts = self.expr(gen.iter)
-        if ts != "ListStr": raise Refused("comprehension over " + ts)
+        """generator / list comprehension `elt for x in <ListStr> [if c] for y in <ListStr> [if c] …` -> List Str"""
+        gens = g.generators
         saved = dict(self.env)
-        x = gen.target.id
-        self.env[x] = (x + "_", "Str")
         try:
-            for cond in gen.ifs:
-                src = f"(({src}).filter fun {x}_ => {self.truthy(cond)})"
+            srcs = []
+            for gen in gens:
+                if not isinstance(gen.target, ast.Name) or gen.is_async: raise Refused("comprehension target")
+                src, ts = self.expr(gen.iter)
+                if ts != "ListStr": raise Refused("comprehension over " + ts)
+                x = gen.target.id
+                self.env[x] = (x + "_", "Str")
+                for cond in gen.ifs:
+                    src = f"(({src}).filter fun {x}_ => {self.truthy(cond)})"
+                srcs.append((x, src))
             body, tb = self.expr(g.elt)
             if tb != "Str": raise Refused("comprehension element " + tb)
         finally:
             self.env = saved
-        return f"(({src}).map fun {x}_ => {body})", "ListStr"
+        x, src = srcs[-1]
+        out = f"(({src}).map fun {x}_ => {body})"
+        for x, src in reversed(srcs[:-1]):
+            out = f"(({src}).flatMap fun {x}_ => {out})"
+        return out, "ListStr"
 
     def call(self, e):
         f = e.func
+        if isinstance(f, ast.Attribute) and isinstance(f.value, ast.Name) and f.value.id == "imp" and f.attr == "Import" and not e.args:
+            kw = {k.arg: k.value for k in e.keywords}
+            if not set(kw) <= {"package", "module", "alias"} or "package" not in kw or "module" not in kw: raise Refused("imp.Import keywords")
+            pk, tpk = self.expr(kw["package"]); mo, tmo = self.expr(kw["module"])
+            al, tal = self.expr(kw["alias"]) if "alias" in kw else ("([] : Str)", "Str")
+            if (tpk, tmo, tal) != ("ListStr", "Str", "Str"): raise Refused("imp.Import argument types")
+            return f"(PyImport.mk {pk} {mo} {al})", "Import"
         if e.keywords: raise Refused("keyword arguments")
         if isinstance(f, ast.Name):
             if f.id == "len" and len(e.args) == 1:
@@ -285,6 +353,10 @@ class Tr:
                 return t, "Str"
             if f.id in ("tuple", "list") and len(e.args) == 1 and isinstance(e.args[0], (ast.GeneratorExp, ast.ListComp)):
                 return self.comp(e.args[0])
+            if f.id in ("tuple", "list") and len(e.args) == 1:
+                t, ty = self.expr(e.args[0])
+                if ty != "ListStr": raise Refused(f.id + "() of " + ty)
+                return t, "ListStr"
             if f.id == "set" and len(e.args) == 1:
                 t, ty = self.comp(e.args[0]) if isinstance(e.args[0], (ast.GeneratorExp, ast.ListComp)) else self.expr(e.args[0])
                 if ty != "ListStr": raise Refused("set() of " + ty)
@@ -358,6 +430,141 @@ class Tr:
             raise Refused(f"str method {f.attr}/{n}")
         raise Refused("call")
 
+    def _guards(self, test):
+        """Match-typed locals that are truthy whenever `test` is"""
+        if isinstance(test, ast.Name) and self.env.get(test.id, (None, None))[1] == "Match":
+            return {test.id}
+        if isinstance(test, ast.BoolOp) and isinstance(test.op, ast.And):
+            out = set()
+            for v in test.values:
+                out |= self._guards(v)
+            return out
+        return set()
+
+    # ---- definedness: a Bool expression that is true iff no index expression evaluated by `e` is out of range
+    @staticmethod
+    def _and(a, b):
+        if a == "true": return b
+        if b == "true": return a
+        return f"({a} && {b})"
+
+    def ok_expr(self, e):
+        if self.subst and not isinstance(e, ast.Constant) and ast.unparse(e) in self.subst:
+            return "true"
+        if isinstance(e, ast.BoolOp):
+            vals = list(e.values)
+            acc = self.ok_expr(vals[-1])
+            for v in reversed(vals[:-1]):
+                if acc != "true":
+                    t = self.truthy(v)
+                    acc = f"(!{t} || {acc})" if isinstance(e.op, ast.And) else f"({t} || {acc})"
+                acc = self._and(self.ok_expr(v), acc)
+            return acc
+        if isinstance(e, ast.IfExp):
+            a, b = self.ok_expr(e.body), self.ok_expr(e.orelse)
+            inner = "true" if a == b == "true" else f"(if {self.truthy(e.test)} then {a} else {b})"
+            return self._and(self.ok_expr(e.test), inner)
+        if isinstance(e, (ast.GeneratorExp, ast.ListComp)):
+            saved = dict(self.env)
+            try:
+                layers = []
+                for gen in e.generators:
+                    src, _ = self.expr(gen.iter)
+                    ok_src = self.ok_expr(gen.iter)
+                    x = gen.target.id
+                    self.env[x] = (x + "_", "Str")
+                    conds = [self.truthy(c) for c in gen.ifs]
+                    ok_conds = "true"
+                    for c in reversed(gen.ifs):          # `if a if b`: b is evaluated only when a holds
+                        ok_conds = self._and(self.ok_expr(c), ok_conds if ok_conds == "true" else f"(!{self.truthy(c)} || {ok_conds})")
+                    layers.append((x, src, ok_src, conds, ok_conds))
+                inner = self.ok_expr(e.elt)
+            finally:
+                self.env = saved
+            for x, src, ok_src, conds, ok_conds in reversed(layers):
+                body = inner
+                if body != "true" and conds:
+                    body = f"(!({' && '.join(conds)}) || {body})"
+                body = self._and(ok_conds, body)
+                layer = "true" if body == "true" else f"(({src}).all fun {x}_ => {body})"
+                inner = self._and(ok_src, layer)
+            return inner
+        acc = "true"
+        if isinstance(e, ast.Subscript) and not isinstance(e.slice, ast.Slice):
+            is_split0 = isinstance(e.slice, ast.Constant) and e.slice.value == 0 and (
+                (isinstance(e.value, ast.Call) and isinstance(e.value.func, ast.Attribute) and e.value.func.attr == "split")
+                or (isinstance(e.value, ast.Name) and e.value.id in self.nonempty))
+            v, tv = self.expr(e.value)
+            if not is_split0 and tv in ("Str", "ListStr"):
+                k = e.slice.value if isinstance(e.slice, ast.Constant) else -e.slice.operand.value
+                acc = f"(inRange (len {v}) ({k} : Int))"
+            return self._and(self.ok_expr(e.value), acc)
+        for child in ast.iter_child_nodes(e):
+            if isinstance(child, ast.expr):
+                acc = self._and(acc, self.ok_expr(child))
+            elif isinstance(child, ast.keyword):
+                acc = self._and(acc, self.ok_expr(child.value))
+            elif isinstance(child, ast.FormattedValue):
+                acc = self._and(acc, self.ok_expr(child.value))
+        return acc
+
+    def ok_block(self, stmts):
+        s, rest = stmts[0], stmts[1:]
+        if isinstance(s, ast.Expr) and isinstance(s.value, ast.Constant) and isinstance(s.value.value, str):
+            return self.ok_block(rest)
+        if isinstance(s, ast.Return):
+            return self.ok_expr(s.value)
+        if isinstance(s, (ast.Assign, ast.AugAssign, ast.AnnAssign)):
+            # re-translate the binding exactly as `block` does (same environment handling)
+            if isinstance(s, ast.Assign):
+                name, v = s.targets[0].id, s.value
+                if isinstance(v, ast.Call) and isinstance(v.func, ast.Attribute) and isinstance(v.func.value, ast.Name) and v.func.value.id == "re" \
+                        and v.func.attr == "match":
+                    pat = self.pattern(v.args[0]); s_, _ = self.expr(v.args[1])
+                    t, ty = f"(reMatchText {pat} {s_})", "Match"
+                    okv = self.ok_expr(v.args[1])
+                else:
+                    t, ty = self.expr(v); okv = self.ok_expr(v)
+                if isinstance(v, ast.Constant) and isinstance(v.value, str):
+                    self.local_consts[name] = v.value
+                else:
+                    self.local_consts.pop(name, None)
+                self.guarded.discard(name)
+                if isinstance(v, ast.Call) and isinstance(v.func, ast.Attribute) and v.func.attr == "split":
+                    self.nonempty.add(name)
+                else:
+                    self.nonempty.discard(name)
+            elif isinstance(s, ast.AnnAssign):
+                name, (t, ty) = s.target.id, self.expr(s.value); okv = self.ok_expr(s.value)
+            else:
+                name = s.target.id
+                a, ta = self.expr(ast.Name(id=name, ctx=ast.Load())); b, tb = self.expr(s.value)
+                t, ty = (f"({a} ++ {b})" if ta == "Str" else f"({a} + {b})"), ta
+                okv = self.ok_expr(s.value)
+            saved = dict(self.env)
+            self.env[name] = (name, ty)
+            try:
+                body = self.ok_block(rest)
+            finally:
+                self.env = saved
+            if body == "true":
+                return okv
+            return self._and(okv, f"(let {name} : {LEAN_TY[ty]} := {t}; {body})")
+        if isinstance(s, ast.If):
+            c = self.truthy(s.test)
+            okc = self.ok_expr(s.test)
+            saved = dict(self.env)
+            g0 = set(self.guarded)
+            self.guarded |= self._guards(s.test)
+            a = self.ok_block(list(s.body) + rest)
+            self.guarded = set(g0)
+            self.env = dict(saved)
+            b = self.ok_block(list(s.orelse) + rest)
+            self.env = saved
+            inner = "true" if a == b == "true" else f"(if {c} then {a} else {b})"
+            return self._and(okc, inner)
+        raise Refused(f"statement {type(s).__name__}")
+
     # ---- statements -> one expression
     def block(self, stmts, ret):
         if not stmts:
@@ -373,7 +580,20 @@ class Tr:
         if isinstance(s, (ast.Assign, ast.AugAssign, ast.AnnAssign)):
             if isinstance(s, ast.Assign):
                 if len(s.targets) != 1 or not isinstance(s.targets[0], ast.Name): raise Refused("assignment target")
-                name, (t, ty) = s.targets[0].id, self.expr(s.value)
+                name = s.targets[0].id
+                v = s.value
+                if isinstance(v, ast.Call) and isinstance(v.func, ast.Attribute) and isinstance(v.func.value, ast.Name) and v.func.value.id == "re" \
+                        and v.func.attr == "match" and len(v.args) == 2 and not v.keywords:
+                    pat = self.pattern(v.args[0]); s_, ts_ = self.expr(v.args[1])
+                    if ts_ != "Str": raise Refused("re.match on " + ts_)
+                    t, ty = f"(reMatchText {pat} {s_})", "Match"
+                else:
+                    t, ty = self.expr(v)
+                if isinstance(v, ast.Constant) and isinstance(v.value, str):
+                    self.local_consts[name] = v.value
+                else:
+                    self.local_consts.pop(name, None)
+                self.guarded.discard(name)
                 if isinstance(s.value, ast.Call) and isinstance(s.value.func, ast.Attribute) and s.value.func.attr == "split":
                     self.nonempty.add(name)
                 else:
@@ -397,7 +617,10 @@ class Tr:
         if isinstance(s, ast.If):
             c = self.truthy(s.test)
             saved = dict(self.env)
+            g0 = set(self.guarded)
+            self.guarded |= self._guards(s.test)
             a = self.block(list(s.body) + rest, ret)
+            self.guarded = set(g0)
             self.env = dict(saved)
             b = self.block(list(s.orelse) + rest, ret)
             self.env = saved
@@ -417,17 +640,21 @@ def translate_one(key, rel, qual, self_attrs, known, opts=None):
         raise Refused("parameter kinds")
     # (default values are ignored: the translated function takes every parameter explicitly)
     for p in a.args:
-        if p.arg == "self":
+        if p.arg == "self" or p.arg in (opts.get("skip_params") or ()):
             continue
         ty = tr.ann(p.annotation)
         params.append((p.arg, ty))
         tr.env[p.arg] = (p.arg, ty)
-    ret = opts["ret"] if (fn.returns is None and opts.get("ret")) else tr.ann(fn.returns)
+    ret = opts["ret"] if opts.get("ret") else tr.ann(fn.returns)
     body = tr.block(fn.body, ret)
-    allp = [(f"self_{n}", t) for n, t in self_attrs] + list((opts.get("subst") or {}).values()) + params
+    tr.local_consts, tr.guarded, tr.nonempty = {}, set(), set()
+    ok = tr.ok_block(fn.body)
+    allp = [(f"self_{n}", t) for n, t in self_attrs] + list(dict.fromkeys((opts.get("subst") or {}).values())) + params
     sig = " ".join(f"({n} : {LEAN_TY[t]})" for n, t in allp)
     text = f"def {key} {sig} : {LEAN_TY[ret]} :=\n  {body}"
-    return {"lean": text, "params": allp, "ret": ret, "file": rel, "qual": qual, "first_line": fn.lineno}
+    if ok != "true":
+        text += f"\n/-- true iff no index expression evaluated by `{key}` on these arguments is out of range (Python raises IndexError otherwise) -/\ndef {key}_ok {sig} : Bool :=\n  {ok}"
+    return {"lean": text, "params": allp, "ret": ret, "file": rel, "qual": qual, "first_line": fn.lineno, "has_ok": ok != "true"}
 
 
 def translate_functions():
@@ -467,8 +694,10 @@ def render_bridge(funcs):
     L = ["-- written by harness/translate.py --pin: one bridge lemma per translated function (closed terms, `rfl`).",
          "-- A change of the Python function that changes its translation breaks exactly the lemma named after it.",
          "import GapicModel.Generated.Funcs", "import GapicModel.Pinned.Funcs", "namespace GapicModel.Bridge.Funcs", ""]
-    for key in funcs:
+    for key, r in funcs.items():
         L.append(f"theorem {key} : @Generated.Funcs.{key} = @Pinned.Funcs.{key} := rfl")
+        if r.get("has_ok"):
+            L.append(f"theorem {key}_ok : @Generated.Funcs.{key}_ok = @Pinned.Funcs.{key}_ok := rfl")
     L += ["", "end GapicModel.Bridge.Funcs", ""]
     return "\n".join(L)
 
@@ -489,13 +718,16 @@ def render_driver(funcs):
          "  | _ => throw \"argument: list of strings expected\"", "",
          "def opFn (j : Json) : Except String Json := do",
          "  let name ← (← j.getObjVal? \"name\").getStr?"]
-    outj = {"Str": "jstr", "Int": "(fun (n : Int) => Json.num (JsonNumber.fromInt n))", "Bool": "Json.bool", "ListStr": "(fun xs => jarr (xs.map jstr))"}
+    outj = {"Str": "jstr", "Int": "(fun (n : Int) => Json.num (JsonNumber.fromInt n))", "Bool": "Json.bool", "ListStr": "(fun xs => jarr (xs.map jstr))",
+            "Import": "(fun (i : PyRt.PyImport) => Json.mkObj [(\"package\", jarr (i.package.map jstr)), (\"module\", jstr i.module), (\"alias\", jstr i.alias)])"}
     argf = {"Str": "argStr", "Int": "argInt", "Bool": "argBool", "ListStr": "argListStr"}
     for key, r in funcs.items():
         if "error" in r:
             continue
         binds = "".join(f"\n    let a{i} ← {argf[t]} j {i}" for i, (_, t) in enumerate(r["params"]))
         args = " ".join(f"a{i}" for i in range(len(r["params"])))
+        if r.get("has_ok"):
+            binds += f"\n    if !(Pinned.Funcs.{key}_ok {args}) then return Json.mkObj [(\"r\", Json.mkObj [(\"raised\", Json.str \"IndexError\")])]"
         L.append(f"  if name == \"{key}\" then{binds}\n    return Json.mkObj [(\"r\", {outj[r['ret']]} (Pinned.Funcs.{key} {args}))]")
     L += ["  throw s!\"unknown translated function {name}\"", "",
           "def opsFuncs : List (String × (Json → Except String Json)) := [(\"fn\", opFn)]", "", "end GapicModel.Driver", ""]
